@@ -124,20 +124,20 @@ Definition local_clean_b (s : schema) : bool :=
 Lemma local_clean_b_sound s : local_clean_b s = true -> local_clean finP allow_null allow_arr OR s.
 Proof.
   intros H. unfold local_clean_b in H. repeat (apply andb_true_iff in H; let H' := fresh "L" in destruct H as [H H']).
-  assert (HF : fmt_clean allow_arr s).
-  { unfold fmt_clean. apply orb_true_iff in L12. destruct L12 as [E | E].
-    - apply orb_true_iff in E. destruct E as [E | E]; [left; apply Z.eqb_eq; exact E | right; left; exact E].
-    - destruct (contains k_number (s_types s) || contains k_integer (s_types s)) eqn:En; [right; left; reflexivity|].
-      right. right. apply andb_true_iff in E. destruct E as [E1 E2]. split; [reflexivity|]. split; [exact E1|].
-      intros Ha. rewrite Ha in E2. exact E2. }
+  assert (HF : fmt_clean allow_null allow_arr s).
+  { unfold fmt_clean, nullsafe. split.
+    - apply orb_true_iff in L12. destruct L12 as [E | E].
+      + apply orb_true_iff in E. destruct E as [E | E]; [left; apply Z.eqb_eq; exact E | right; left; exact E].
+      + destruct (contains k_number (s_types s) || contains k_integer (s_types s)) eqn:En; [right; left; reflexivity|].
+        right. right. apply andb_true_iff in E. destruct E as [E1 E2]. split; [reflexivity|]. split; [exact E1|].
+        intros Ha. rewrite Ha in E2. exact E2.
+    - intros Hn. rewrite Hn in H. cbn [negb orb] in H. apply andb_true_iff in H. destruct H as [H Hc]. apply andb_true_iff in H. destruct H as [H Ho].
+      apply andb_true_iff in H. destruct H as [Ha Hb].
+      split; [revert Ha; destruct (s_all_of s); [reflexivity | discriminate]|].
+      split; [revert Hb; destruct (s_any_of s); [reflexivity | discriminate]|].
+      split; [revert Ho; destruct (s_one_of s); [reflexivity | discriminate] | revert Hc; destruct (s_not s); [discriminate | reflexivity]]. }
   split; [|exact HF].
-  unfold local_clean0, array_clean, object_clean, comp_clean, bounds_fin, nullsafe.
-  split.
-  { intros Hn. rewrite Hn in H. cbn [negb orb] in H. apply andb_true_iff in H. destruct H as [H Hc]. apply andb_true_iff in H. destruct H as [H Ho].
-    apply andb_true_iff in H. destruct H as [Ha Hb].
-    split; [revert Ha; destruct (s_all_of s); [reflexivity | discriminate]|].
-    split; [revert Hb; destruct (s_any_of s); [reflexivity | discriminate]|].
-    split; [revert Ho; destruct (s_one_of s); [reflexivity | discriminate] | revert Hc; destruct (s_not s); [discriminate | reflexivity]]. }
+  unfold local_clean0, array_clean, object_clean, comp_clean, bounds_fin.
   split; [revert L13; destruct (s_ref s); [discriminate | reflexivity]|].
   split; [apply negb_true_iff; exact L11|].
   split; [apply (forallb_Forall _ _ _ (fun e He => jd_bf_sound fin_b true true _ e He) L10)|].
@@ -159,7 +159,6 @@ Qed.
 
 (* the same without the condition on formats, which the recursive theorem asks of (schema, value) pairs (AgreementRec.fits_b) *)
 Definition local_clean0_b (s : schema) : bool :=
-  (negb allow_null || (is_nil_b (s_all_of s) && is_nil_b (s_any_of s) && is_nil_b (s_one_of s) && is_none (s_not s))) &&
   is_none (s_ref s) && negb (s_nullable s) &&
   forallb (fun e => jd_bf fin_b true true (S (goval_depth e)) e) (s_enum s) &&
   (Z.eqb (s_pattern s) 0 || o_re_ok OR (s_pattern s)) &&
@@ -175,17 +174,11 @@ Definition local_clean0_b (s : schema) : bool :=
   (* numbers *)
   (match s_maximum s with Some m => fin_b m | None => true end) && (match s_minimum s with Some m => fin_b m | None => true end).
 
-Lemma local_clean0_b_sound s : local_clean0_b s = true -> local_clean0 finP allow_null OR s.
+Lemma local_clean0_b_sound s : local_clean0_b s = true -> local_clean0 finP OR s.
 Proof.
   intros H. unfold local_clean0_b in H. repeat (apply andb_true_iff in H; let H' := fresh "L" in destruct H as [H H']).
-  unfold local_clean0, array_clean, object_clean, comp_clean, bounds_fin, nullsafe.
-  split.
-  { intros Hn. rewrite Hn in H. cbn [negb orb] in H. apply andb_true_iff in H. destruct H as [H Hc]. apply andb_true_iff in H. destruct H as [H Ho].
-    apply andb_true_iff in H. destruct H as [Ha Hb].
-    split; [revert Ha; destruct (s_all_of s); [reflexivity | discriminate]|].
-    split; [revert Hb; destruct (s_any_of s); [reflexivity | discriminate]|].
-    split; [revert Ho; destruct (s_one_of s); [reflexivity | discriminate] | revert Hc; destruct (s_not s); [discriminate | reflexivity]]. }
-  split; [revert L12; destruct (s_ref s); [discriminate | reflexivity]|].
+  unfold local_clean0, array_clean, object_clean, comp_clean, bounds_fin.
+  split; [revert H; destruct (s_ref s); [discriminate | reflexivity]|].
   split; [apply negb_true_iff; exact L11|].
   split; [apply (forallb_Forall _ _ _ (fun e He => jd_bf_sound fin_b true true _ e He) L10)|].
   split; [apply orb_true_iff in L9; destruct L9 as [E | E]; [left; apply Z.eqb_eq; exact E | right; exact E]|].
